@@ -48,7 +48,10 @@ def whole_stack_finds(rng, n):
         import pydicom.uid as _u
         tss = [_u.ImplicitVRLittleEndian, _u.ExplicitVRLittleEndian, _u.ExplicitVRBigEndian]
         ts_a, ts_b = tss[k % 3], tss[(k + 1) % 3]
-        srv = R.server_ae(ae_mod.AE, 'SRV', 0, supported_ts=[ts_a, ts_b], max_pdu_length=16384)
+        # even runs: the provider supports ONE syntax and the user proposes all three (whichever comes first in its
+        # proposal); odd runs: a second requester with another syntax is accepted on the same context id meanwhile
+        restricted = (k % 2 == 0)
+        srv = R.server_ae(ae_mod.AE, 'SRV', 0, supported_ts=[ts_a] if restricted else [ts_a, ts_b], max_pdu_length=16384)
         srv.add_scp(sc.qr_find_scp)
         seen_q = {}
 
@@ -57,10 +60,10 @@ def whole_stack_finds(rng, n):
             return iter(m)
         srv.on_receive_find = on_find
         srv.timeout = 20
-        cl = ae_mod.ClientAE('CL', supported_ts=[ts_a], max_pdu_length=rng.choice([256, 512])).add_scu(sc.qr_find_scu)
+        cl = ae_mod.ClientAE('CL', supported_ts=tss if restricted else [ts_a], max_pdu_length=rng.choice([256, 512])).add_scu(sc.qr_find_scu)
         cl.timeout = 8
         # another requester, with another transfer syntax, is accepted on the same context id while this query runs
-        other = ae_mod.ClientAE('OTHER', supported_ts=[ts_b], max_pdu_length=16384).add_scu(sc.qr_find_scu)
+        other = ae_mod.ClientAE('OTHER', supported_ts=[ts_a] if restricted else [ts_b], max_pdu_length=16384).add_scu(sc.qr_find_scu)
         other.timeout = 8
         addr = ('find.example', 104)
         mid = rng.choice(K.MIDS[1:])
@@ -127,9 +130,41 @@ def main(tier='quick'):
                 ms = [(s, rng.choice([0, 10, 100])) for s in seq]
                 tr, extra = K.run_find_scu(rng, mid, rng.choice([1, 5, 255]), ms, final, worklist)
                 add(tr, extra, {'svc': 'modality_work_list_scu' if worklist else 'qr_find_scu', 'statuses': seq, 'final': final})
+    # several associations of one process are served at the same time (one handler thread each): every query still gets
+    # exactly its own matches
+    import threading
+    import sys as _sys
+    conc = []
+
+    def serve(k):
+        r = random.Random(7000 + k)
+        for j in range(25 if tier == 'quick' else 250):
+            ms = [(r.choice([0xFF00, 0xFF01]), r.choice([10, 100, 400])) for _ in range(r.choice([1, 2, 4]))]
+            mid = r.choice(K.MIDS)
+            try:
+                tr, extra = K.run_find_scp(r, 'eager', mid, 1, ms, False, r.choice([16384, 64]))
+            except Exception as exc:      # noqa
+                tr, extra = None, {'raised': 'concurrent provider run raised %s: %s' % (type(exc).__name__, exc)}
+            conc.append((tr, extra, {'svc': 'qr_find_scp', 'policy': 'eager', 'statuses': [m[0] for m in ms], 'concurrent_threads': 4}))
+    old = _sys.getswitchinterval()
+    _sys.setswitchinterval(1e-6)
+    try:
+        ths = [threading.Thread(target=serve, args=(k,)) for k in range(4)]
+        for t in ths:
+            t.start()
+        for t in ths:
+            t.join()
+    finally:
+        _sys.setswitchinterval(old)
+    for tr, extra, meta in conc:
+        if tr is None:
+            for k, val in extra.items():
+                v.report({'site': 'sopclass.qr_find_scp', 'clause': k}, '%s (%r)' % (val, meta), replay=meta)
+        else:
+            add(tr, extra, meta)
     # whole stack: real provider threads on both sides, the provider's responses reach the user in batches (several
     # P-DATA-TF PDUs per segment), small maximum PDU length -> every response spans many PDUs
-    for tr, extra, meta in whole_stack_finds(rng, 2 if tier == 'quick' else 12):
+    for tr, extra, meta in whole_stack_finds(rng, 4 if tier == 'quick' else 18):
         add(tr, extra, meta)
     res, stats = tlc.validate_traces('Trace_Services', 'Trace_Services.cfg', traces, chunk=5000)
     for tr, r, meta in zip(traces, res, metas):
